@@ -432,12 +432,18 @@ end loop
 
 /-! ### (5c) every `flag true` in a trace is justified -/
 
+section fj
+variable [Add τ] [LE τ] [DecidableRel (α := τ) (· ≤ ·)] [OfNat τ 0] [BEq τ]
+
 /-- the event `e`, preceded by `pre`, is justified as a `done = True` assignment: directly after an
-`exit`/`exitEnd` of the same doer at the same tyme, or (a DoDoer's `self.done = self.recur()`) after a `recur`
-of the same doer at the same tyme -/
+`exit`/`exitEnd` of the same doer at the same tyme, or it is a DoDoer's `self.done = self.recur()`: what precedes
+it ends with the `recur` of the same doer at the same tyme followed by exactly the events `mid` of one complete
+cycle (`runCycle`, no exception) of a scheduler with that id over some deque `deeds`, which left its deque empty -/
 def FlagTrueOK (pre : List (Ev τ)) (e : Ev τ) : Prop :=
   (∃ pre' p, pre = pre' ++ [p] ∧ p.id = e.id ∧ p.tyme = e.tyme ∧ (p.kind = .exit ∨ p.kind = .exitEnd))
-  ∨ (∃ p ∈ pre, p.id = e.id ∧ p.tyme = e.tyme ∧ p.kind = .recur)
+  ∨ (∃ (pre1 mid : List (Ev τ)) (pool : List (Spec τ)) (stock : τ) (deeds : List (RT τ)) (doers : List Id) (un : List (RT τ))
+      (c : Cyc τ), pre = pre1 ++ ev e.id .recur e.tyme :: mid
+        ∧ runCycle pool e.tyme stock e.id deeds { doers := doers } = (mid, un, c, none) ∧ c.pr = [])
 
 /-- all `flag true` events of the trace are justified -/
 def FJ (es : List (Ev τ)) : Prop :=
@@ -445,9 +451,9 @@ def FJ (es : List (Ev τ)) : Prop :=
 
 theorem FlagTrueOK.mono {pre : List (Ev τ)} {e : Ev τ} (a : List (Ev τ)) (h : FlagTrueOK pre e) :
     FlagTrueOK (a ++ pre) e := by
-  rcases h with ⟨pre', p, h1, h2⟩ | ⟨p, hp, h2⟩
+  rcases h with ⟨pre', p, h1, h2⟩ | ⟨pre1, mid, pool, stock, deeds, doers, un, c, h1, h2⟩
   · exact Or.inl ⟨a ++ pre', p, by rw [h1, List.append_assoc], h2⟩
-  · exact Or.inr ⟨p, List.mem_append_right _ hp, h2⟩
+  · exact Or.inr ⟨a ++ pre1, mid, pool, stock, deeds, doers, un, c, by rw [h1, List.append_assoc], h2⟩
 
 theorem FJ.nil : FJ ([] : List (Ev τ)) := by
   intro pre e post h; cases pre <;> cases h
@@ -511,23 +517,32 @@ theorem FJ.snoc_after_exit {a : List (Ev τ)} (i : Id) (k : Kind) (b : Bool) (no
         exact ha pre e c' h1 hke
 
 /-- a DoDoer's own assignment after its `recur` -/
-theorem FJ.recur_flag {es : List (Ev τ)} (i : Id) (b : Bool) (now : τ) (hes : FJ es) :
-    FJ ([ev i .recur now] ++ es ++ [ev i (.flag b) now]) := by
+theorem FJ.recur_flag {es : List (Ev τ)} (i : Id) (now : τ) (hes : FJ es)
+    {pool : List (Spec τ)} {stock : τ} {deeds : List (RT τ)} {doers : List Id} {un : List (RT τ)} {c : Cyc τ}
+    (hrun : runCycle pool now stock i deeds { doers := doers } = (es, un, c, none)) :
+    FJ ([ev i .recur now] ++ es ++ [ev i (.flag c.pr.isEmpty) now]) := by
   intro pre e post he hke
+  have key : e = ev i (.flag c.pr.isEmpty) now → FlagTrueOK ([ev i .recur now] ++ es) e := by
+    intro h
+    subst h
+    have hc : c.pr = [] := by
+      have : c.pr.isEmpty = true := by injection hke
+      exact List.isEmpty_iff.mp this
+    exact Or.inr ⟨[], es, pool, stock, deeds, doers, un, c, rfl, hrun, hc⟩
   rcases List.append_eq_append_iff.mp he with ⟨a', h1, h2⟩ | ⟨c', h1, h2⟩
   · cases a' with
     | nil =>
         simp only [List.nil_append, List.cons.injEq] at h2
         rw [List.append_nil] at h1
-        rw [h1, ← h2.1]
-        exact Or.inr ⟨ev i .recur now, by simp, rfl, rfl, rfl⟩
+        rw [h1]
+        exact key h2.1.symm
     | cons x a' => simp only [List.cons_append, List.cons.injEq] at h2; cases a' <;> simp at h2
   · cases c' with
     | nil =>
         simp only [List.nil_append, List.cons.injEq] at h2
         rw [List.append_nil] at h1
-        rw [← h1, h2.1]
-        exact Or.inr ⟨ev i .recur now, by simp, rfl, rfl, rfl⟩
+        rw [← h1]
+        exact key h2.1
     | cons x c' =>
         simp only [List.cons_append, List.cons.injEq] at h2
         obtain ⟨rfl, h2⟩ := h2
@@ -615,9 +630,6 @@ theorem FJ.ret_block {x : List (Ev τ)} (i : Id) (v : Option Bool) (now : τ) (h
 
 theorem stopEvs_FJ (now : τ) (ds : List (RT τ)) : FJ (stopEvs now ds) := FJ.of_noFlag (stopEvs_noFlag now ds)
 
-section cyc
-variable [Add τ] [LE τ] [DecidableRel (α := τ) (· ≤ ·)] [OfNat τ 0] [BEq τ]
-
 mutual
 theorem resumeGroup_FJ (now : τ) : ∀ rt : RT τ,
     FJ (resumeGroup now rt).1 ∧ ∀ eg, resumeGroup now rt = (eg, .finished) → FJ (eg ++ [ev rt.id (.flag true) now])
@@ -636,7 +648,7 @@ theorem resumeGroup_FJ (now : τ) : ∀ rt : RT τ,
           exact (((((FJ.single i .recur now rfl).append ih).append (FJ.abort i x now)).append
             (FJ.single i .exit now rfl)).append (FJ.close now _)).append (FJ.single i .exitEnd now rfl)
       | none =>
-          have h1 : FJ ([ev i .recur now] ++ es ++ [ev i (.flag c.pr.isEmpty) now]) := FJ.recur_flag i _ now ih
+          have h1 : FJ ([ev i .recur now] ++ es ++ [ev i (.flag c.pr.isEmpty) now]) := FJ.recur_flag i now ih h
           simp only
           split
           · exact ⟨h1, fun eg h => by simp only [Prod.mk.injEq, reduceCtorEq, and_false] at h⟩
@@ -710,6 +722,6 @@ theorem doistDo_FJ (pool : List (Spec τ)) (tock start : τ) (limit : Option τ)
   cases h : (enterList start specs).2.2
   · rw [doistDo_ok h]; exact he.append (doLoop_FJ pool tock _ fuel 0 start _ _)
   · rw [doistDo_fail h]; exact he.append (stopEvs_FJ _ _)
-end cyc
+end fj
 
 end Hio.Sched
